@@ -14,7 +14,7 @@ STD_ASSUME = [
     'Torus32=int32_t arithmetic wraps (cbmc --no-signed-overflow-check; gcc/clang compile it as two\'s complement)',
     'scalar (#ifndef __AVX2__) branches only; inline assembly and .s kernels are not seen by the verifier',
     'allocation succeeds (--no-malloc-may-fail): std::bad_alloc / NULL-returning malloc paths are not explored',
-    'extraction rules R1-R10 of tools/extract.py preserve the meaning of the copied source text',
+    'extraction rules R1-R15 of tools/extract.py preserve the meaning of the copied source text',
 ]
 
 C13_LISTED = [2, 3, 4, 5, 7, 8, 16, 1000, 1024, 2048, 4096, 32768, 2147483648]
